@@ -17,6 +17,8 @@
 //!   prints, so the printed case is complete.
 //!
 //!   qstress <cap|u> <threads> <per-thread> => ok | <what went wrong>     free-running producers
+//!   qburst <cap> <threads> <per> <rounds> => ok | …   producers released together against a parked worker
+//!   qlatency <cap> => ok | …                          refused emits on a full queue return promptly
 
 use cadence::{MetricSink, QueuingMetricSink};
 use cadence_verif_harness::*;
@@ -67,6 +69,14 @@ impl Drop for Gated {
     fn drop(&mut self) {
         let _ = self.ev.send(Ev::Dropped);
     }
+}
+
+/// liveness timeouts seen so far in this process; once a handful of histories have timed out the
+/// generators stop (the violation is established; thousands of further 400 ms waits add nothing)
+static TIMEOUTS: AtomicU64 = AtomicU64::new(0);
+
+fn too_many_timeouts() -> bool {
+    TIMEOUTS.load(Ordering::Relaxed) > 15
 }
 
 fn timeout_ms() -> u64 {
@@ -158,13 +168,17 @@ struct Run {
 }
 
 impl Run {
-    fn new(cap: Option<usize>, handler: bool) -> Run {
+    fn new(cap: Option<usize>, hmode: u8) -> Run {
+        let handler = hmode != 0;
         let (etx, erx) = unbounded();
         let (gtx, grx) = unbounded();
         let sink = Gated { ev: etx.clone(), go: grx };
         let mut b = QueuingMetricSink::builder();
-        if let Some(c) = cap {
-            b = b.with_capacity(c);
+        // the builder calls may come in either order (handler mode 1: capacity first, 2: handler first)
+        if hmode != 2 {
+            if let Some(c) = cap {
+                b = b.with_capacity(c);
+            }
         }
         if handler {
             let htx = etx.clone();
@@ -175,6 +189,11 @@ impl Run {
                 let t = it.next().unwrap_or("x").to_string();
                 let _ = htx.send(Ev::Handled(k, t, std::thread::current().id()));
             });
+        }
+        if hmode == 2 {
+            if let Some(c) = cap {
+                b = b.with_capacity(c);
+            }
         }
         let q = b.build(sink);
         let (ctx, crx) = unbounded();
@@ -256,6 +275,7 @@ impl Run {
                 Err(_) => {
                     out.push("T".to_string());
                     self.stuck = true;
+                    TIMEOUTS.fetch_add(1, Ordering::Relaxed);
                 }
             }
         }
@@ -352,8 +372,8 @@ impl Run {
     }
 }
 
-fn run_queue(cap: Option<usize>, handler: bool, ops: &[String]) -> (Vec<String>, String) {
-    let mut r = Run::new(cap, handler);
+fn run_queue(cap: Option<usize>, hmode: u8, ops: &[String]) -> (Vec<String>, String) {
+    let mut r = Run::new(cap, hmode);
     let mut all_ops: Vec<String> = Vec::new();
     let mut obs = Vec::new();
     for op in ops {
@@ -408,15 +428,20 @@ fn run_line(line: &str) -> Option<String> {
     match f[0] {
         "queue" if f.len() == 4 => {
             let ops: Vec<String> = if f[3] == "-" { vec![] } else { f[3].split(',').map(|x| x.to_string()).collect() };
-            let (all, obs) = run_queue(parse_cap(f[1]), f[2] == "1", &ops);
+            let (all, obs) = run_queue(parse_cap(f[1]), f[2].parse().unwrap_or(0), &ops);
             Some(format!("queue {} {} {} => {}", f[1], f[2], if all.is_empty() { "-".to_string() } else { all.join(",") }, obs))
         }
         "queue0" if f.len() == 3 => {
             // zero-capacity (rendezvous) queue: outside the model; only "never panics / never blocks" is checked
             let ops: Vec<String> = if f[2] == "-" { vec![] } else { f[2].split(',').map(|x| x.to_string()).collect() };
-            let (all, obs) = run_queue(Some(0), f[1] == "1", &ops);
+            let (all, obs) = run_queue(Some(0), f[1].parse().unwrap_or(0), &ops);
             Some(format!("queue0 {} {} => {}", f[1], if all.is_empty() { "-".to_string() } else { all.join(",") }, obs))
         }
+        "qburst" if f.len() == 5 => {
+            let r = run_burst(f[1].parse().unwrap_or(1), f[2].parse().unwrap_or(2), f[3].parse().unwrap_or(1), f[4].parse().unwrap_or(1));
+            Some(format!("{} => {}", line, r))
+        }
+        "qlatency" if f.len() == 2 => Some(format!("{} => {}", line, run_latency(f[1].parse().unwrap_or(1)))),
         "qstress" if f.len() == 4 => {
             let r = run_stress(parse_cap(f[1]), f[2].parse().unwrap_or(2), f[3].parse().unwrap_or(10));
             Some(format!("{} => {}", line, r))
@@ -483,7 +508,9 @@ fn run_stress(cap: Option<usize>, threads: usize, per: usize) -> String {
     let accepted: Vec<Vec<String>> = hs.into_iter().map(|h| h.join().unwrap()).collect();
     let total: usize = accepted.iter().map(|a| a.len()).sum();
     stop.store(1, Ordering::Release);
-    let _ = sampler.join();
+    if sampler.join().is_err() {
+        return "queued-panicked-under-concurrency".to_string();
+    }
     let t0 = Instant::now();
     while coll.got.lock().unwrap().len() < total && t0.elapsed() < Duration::from_secs(10) {
         std::thread::yield_now();
@@ -519,13 +546,96 @@ fn run_stress(cap: Option<usize>, threads: usize, per: usize) -> String {
 
 // ------------------------------------------------------------------------------------------------
 
+/// worker parked inside the wrapped sink; `threads` producers released together, each trying
+/// `per` emits: exactly `cap` must be accepted in every round (the capacity is never exceeded)
+fn run_burst(cap: usize, threads: usize, per: usize, rounds: usize) -> String {
+    for round in 0..rounds {
+        let (etx, erx) = unbounded();
+        let (gtx, grx) = unbounded();
+        let q = QueuingMetricSink::with_capacity(Gated { ev: etx, go: grx }, cap);
+        if q.emit("park").is_err() {
+            return "first-emit-refused".to_string();
+        }
+        match erx.recv_timeout(Duration::from_millis(2000)) {
+            Ok(Ev::Enter(_, _)) => {}
+            _ => return "worker-did-not-start".to_string(),
+        }
+        let barrier = Arc::new(std::sync::Barrier::new(threads));
+        let mut hs = Vec::new();
+        for t in 0..threads {
+            let q = q.clone();
+            let b = barrier.clone();
+            hs.push(std::thread::spawn(move || {
+                b.wait();
+                let mut ok = 0usize;
+                for i in 0..per {
+                    if q.emit(&format!("b{}.{}", t, i)).is_ok() {
+                        ok += 1;
+                    }
+                }
+                ok
+            }));
+        }
+        let accepted: usize = hs.into_iter().map(|h| h.join().unwrap_or(0)).sum();
+        let queued = q.queued();
+        // let everything through and shut down
+        for _ in 0..(accepted + 2) {
+            let _ = gtx.send(Out::Ok);
+        }
+        drop(q);
+        if accepted != cap {
+            return format!("capacity-{}-accepted-{}-in-round-{}-queued-{}", cap, accepted, round, queued);
+        }
+    }
+    "ok".to_string()
+}
+
+/// worker parked, queue full: refused emits must return promptly (they never wait for the worker)
+fn run_latency(cap: usize) -> String {
+    let mut worst = String::new();
+    for _attempt in 0..3 {
+        let (etx, erx) = unbounded();
+        let (gtx, grx) = unbounded();
+        let q = QueuingMetricSink::with_capacity(Gated { ev: etx, go: grx }, cap);
+        let _ = q.emit("park");
+        let _ = erx.recv_timeout(Duration::from_millis(2000));
+        for i in 0..cap {
+            let _ = q.emit(&format!("f{}", i));
+        }
+        let t0 = Instant::now();
+        let mut refused = 0;
+        for i in 0..100 {
+            if q.emit(&format!("r{}", i)).is_err() {
+                refused += 1;
+            }
+        }
+        let el = t0.elapsed();
+        for _ in 0..(cap + 2) {
+            let _ = gtx.send(Out::Ok);
+        }
+        drop(q);
+        if refused != 100 {
+            return format!("only-{}-of-100-emits-refused-on-a-full-queue", refused);
+        }
+        if el < Duration::from_millis(200) {
+            return "ok".to_string();
+        }
+        worst = format!("100-refused-emits-took-{}ms-on-a-full-queue", el.as_millis());
+    }
+    worst
+}
+
 fn emit_case(out: &mut impl Write, cap: Option<usize>, handler: bool, ops: &[String], count: &mut u64) {
-    let (all, obs) = run_queue(cap, handler, ops);
+    if too_many_timeouts() {
+        return;
+    }
+    let hmode: u8 = if !handler { 0 } else { 1 + (*count % 2) as u8 };
+    let (all, obs) = run_queue(cap, hmode, ops);
     writeln!(
         out,
         "queue {} {} {} => {}",
         cap.map(|c| c.to_string()).unwrap_or("u".into()),
-        if handler { 1 } else { 0 },
+        hmode,
         if all.is_empty() { "-".to_string() } else { all.join(",") },
         obs
     )
@@ -535,7 +645,7 @@ fn emit_case(out: &mut impl Write, cap: Option<usize>, handler: bool, ops: &[Str
 
 /// all histories of exactly `depth` ops over two handles
 fn exhaustive(out: &mut impl Write, caps: &[Option<usize>], depth: usize, count: &mut u64) {
-    let alpha = ["e0", "e1", "c0", "d0", "d1", "k", "x8", "p", "s0"];
+    let alpha = ["e0", "e1", "E0", "c0", "d0", "d1", "k", "x4", "p", "s0"];
     let a = alpha.len();
     for &cap in caps {
         for d in 1..=depth {
@@ -550,6 +660,14 @@ fn exhaustive(out: &mut impl Write, caps: &[Option<usize>], depth: usize, count:
                     c /= a;
                     let (k, h) = t.split_at(1);
                     match k {
+                        "E" => {
+                            // the empty string is a metric like any other
+                            if !live[0] {
+                                ok = false;
+                                break;
+                            }
+                            ops.push("e0:-".to_string());
+                        }
                         "e" | "d" | "c" | "s" => {
                             let h: usize = h.parse().unwrap();
                             if h >= live.len() || !live[h] {
@@ -605,6 +723,9 @@ fn random_cases(out: &mut impl Write, rng: &mut Rng, n: usize, maxops: usize, co
                 });
             } else if alive.is_empty() {
                 ops.push("k".to_string());
+            } else if r < finish_bias + 3 {
+                let h = *rng.pick(&alive);
+                ops.push(format!("e{}:-", h));
             } else if r < finish_bias + 45 {
                 let h = *rng.pick(&alive);
                 seq += 1;
@@ -688,11 +809,28 @@ fn main() {
             count += 1;
         }
     }
+    let bursts: Vec<(usize, usize, usize, usize)> = if tier == "quick" {
+        vec![(1, 4, 1, 150), (2, 4, 2, 100), (3, 8, 1, 60)]
+    } else {
+        vec![(1, 4, 1, 3000), (2, 4, 2, 2000), (3, 8, 1, 1000), (8, 16, 2, 500)]
+    };
+    for (cap, t, per, rounds) in bursts {
+        if let Some(l) = run_line(&format!("qburst {} {} {} {}", cap, t, per, rounds)) {
+            writeln!(out, "{}", l).unwrap();
+            count += 1;
+        }
+    }
+    for cap in [1usize, 4] {
+        if let Some(l) = run_line(&format!("qlatency {}", cap)) {
+            writeln!(out, "{}", l).unwrap();
+            count += 1;
+        }
+    }
     if tier == "quick" {
         exhaustive(&mut out, &[Some(1), Some(2), None], 4, &mut count);
         random_cases(&mut out, &mut rng, 1500, 60, &mut count);
         random_cases(&mut out, &mut rng, 40, 400, &mut count);
-        for (cap, t, n) in [(None, 4usize, 400usize), (Some(8), 8, 300), (Some(1), 3, 200), (None, 16, 100)] {
+        for (cap, t, n) in [(None, 4usize, 400usize), (Some(8), 8, 300), (Some(1), 3, 200), (None, 16, 100), (Some(1), 16, 2000), (Some(2), 8, 2000)] {
             let r = run_stress(cap, t, n);
             writeln!(out, "qstress {} {} {} => {}", cap.map(|c| c.to_string()).unwrap_or("u".into()), t, n, r).unwrap();
             count += 1;
